@@ -24,6 +24,7 @@ import (
 	"fmt"
 	"math/rand"
 	"os"
+	"strings"
 
 	blsu "github.com/protolambda/bls12-381-util"
 	"github.com/protolambda/zrnt/eth2/beacon"
@@ -72,7 +73,7 @@ func makeSpec(p Preset, altairEpoch, bellatrixEpoch, capellaEpoch, denebEpoch ui
 	}
 	s.EFFECTIVE_BALANCE_INCREMENT = common.Gwei(incr)
 	s.MIN_DEPOSIT_AMOUNT = common.Gwei(incr)
-	s.EJECTION_BALANCE = common.Gwei(p.MAX_EFFECTIVE_BALANCE / 2)
+	s.EJECTION_BALANCE = common.Gwei(p.MAX_EFFECTIVE_BALANCE / 4)
 	s.SYNC_COMMITTEE_SIZE = view.Uint64View(p.SYNC_COMMITTEE_SIZE)
 	s.EPOCHS_PER_HISTORICAL_VECTOR = common.Epoch(p.EPOCHS_PER_HISTORICAL_VECTOR)
 	s.MIN_SEED_LOOKAHEAD = common.Epoch(p.MIN_SEED_LOOKAHEAD)
@@ -349,8 +350,9 @@ func ep(e common.Epoch) int {
 }
 
 type oracleBuilder struct {
-	seen map[string]bool
-	out  []pair
+	seen      map[string]bool
+	out       []pair
+	maxBlocks uint64 // largest number of sampling blocks any selection of this state reads
 }
 
 func (o *oracleBuilder) sha(pre []byte) [32]byte {
@@ -399,6 +401,7 @@ func (o *oracleBuilder) shuffleEntries(seed [32]byte, rounds uint64, nMax int) {
 // were wrong the table would be too small and TLC would stop with a missing pre-image (infrastructure error, exit 2),
 // or too large (harmless).  The verdict comes from Committees.tla alone.
 const maxBlocks = 2000
+const degenerateBlocks = 12
 
 func sizingShuffled(index, n uint64, seed [32]byte, rounds uint64) uint64 {
 	for r := uint64(0); r < rounds; r++ {
@@ -441,13 +444,16 @@ func (o *oracleBuilder) samplingBlocks(seed [32]byte, p Preset, vals [][]int, e 
 			blocks = i/32 + 1
 		}
 	}
+	if blocks > o.maxBlocks {
+		o.maxBlocks = blocks
+	}
 	for b := uint64(0); b < blocks+1; b++ {
 		o.sha(cat(seed[:], u64(b)))
 	}
 }
 
 // buildOracle: crypto/sha256 of every pre-image the specification hashes for this state.
-func buildOracle(p Preset, slot uint64, mixes [][32]byte, vals [][]int) []pair {
+func buildOracle(p Preset, slot uint64, mixes [][32]byte, vals [][]int) ([]pair, uint64) {
 	nVals := len(vals)
 	o := &oracleBuilder{seen: map[string]bool{}}
 	cur := slot / p.SLOTS_PER_EPOCH
@@ -473,7 +479,7 @@ func buildOracle(p Preset, slot uint64, mixes [][32]byte, vals [][]int) []pair {
 		o.shuffleEntries(ys, p.SHUFFLE_ROUND_COUNT, nVals)
 		o.samplingBlocks(ys, p, vals, e, p.SYNC_COMMITTEE_SIZE)
 	}
-	return o.out
+	return o.out, o.maxBlocks
 }
 
 func guarded(f func() error) (err error) {
@@ -676,7 +682,13 @@ func recordState(spec *common.Spec, p Preset, st common.BeaconState, running *co
 		return ev, err
 	}
 	ev.Chain, ev.Kind, ev.Boundary, ev.NewChain = chain, kind, boundary, newChain
-	ev.H = buildOracle(p, uint64(ev.Slot), mixesRaw, ev.Vals)
+	var blocks uint64
+	ev.H, blocks = buildOracle(p, uint64(ev.Slot), mixesRaw, ev.Vals)
+	if blocks > degenerateBlocks {
+		// (nearly) every active validator has a (nearly) zero balance: the specification's sampling loops run for
+		// thousands of candidates, which TLC evaluates as equally deep recursion.  Such inputs are not recorded.
+		return event{Ev: "Skipped", Chain: chain, Kind: kind, Slot: ev.Slot, Fork: ev.Fork, P: p}, nil
+	}
 	var fresh *common.EpochsContext
 	ferr := guarded(func() error {
 		var err error
@@ -687,6 +699,15 @@ func recordState(spec *common.Spec, p Preset, st common.BeaconState, running *co
 		ev.Epcs = append(ev.Epcs, answers{Src: "fresh", Err: ferr.Error(), Counts: []int{}, Comms: [][][][]int{}, Proposers: []int{}, SyncCur: []int{}, SyncNext: []int{}})
 	} else {
 		ev.Epcs = append(ev.Epcs, epcAnswers(spec, fresh, uint64(ev.Slot), "fresh"))
+		// outside property C07 (observation only, never part of a verdict): a query for an epoch the context does
+		// not cover should be an error, not a crash
+		oerr := guarded(func() error {
+			_, err := fresh.GetCommitteeCountPerSlot(common.Epoch(uint64(ev.Slot)/uint64(spec.SLOTS_PER_EPOCH) + 2))
+			return err
+		})
+		if oerr != nil {
+			ev.Note = map[string]string{"count_for_uncovered_epoch": oerr.Error()}
+		}
 	}
 	if running != nil {
 		ev.Epcs = append(ev.Epcs, epcAnswers(spec, running, uint64(ev.Slot), "running"))
@@ -859,6 +880,11 @@ func runChain(it planItem, emit func(event) error) error {
 	midPick := uint64(rng.Intn(int(spe)))
 	for slot := uint64(1); slot <= end; slot++ {
 		if err := common.ProcessSlots(context.Background(), spec, epc, st, common.Slot(slot)); err != nil {
+			if strings.Contains(err.Error(), "no active validators") {
+				// every validator has exited (ejections on a chain without blocks): the chain is dead, for the
+				// specification as well (compute_proposer_index asserts len(indices) > 0); stop recording it
+				return nil
+			}
 			return fmt.Errorf("ProcessSlots(%d): %v", slot, err)
 		}
 		if slot%spe == 0 || slot%spe == midPick {
@@ -894,16 +920,23 @@ func record(planPath, outPath string) error {
 		if err := json.Unmarshal(sc.Bytes(), &it); err != nil {
 			return err
 		}
-		switch it.Kind {
-		case "mutated":
-			err = runMutated(it, emit)
-		case "chain":
-			err = runChain(it, emit)
-		default:
-			err = fmt.Errorf("unknown plan kind %q", it.Kind)
-		}
+		// zrnt code also runs while the states are built (genesis, upgrades, ProcessSlots): a panic or an error
+		// there is recorded as an event of its own (the check reports it; it is never silently dropped)
+		err = guarded(func() error {
+			switch it.Kind {
+			case "mutated":
+				return runMutated(it, emit)
+			case "chain":
+				return runChain(it, emit)
+			default:
+				return fmt.Errorf("unknown plan kind %q", it.Kind)
+			}
+		})
 		if err != nil {
-			return fmt.Errorf("plan line %d: %v", line, err)
+			if e2 := emit(event{Ev: "Failed", Chain: it.Chain, Kind: it.Kind, P: it.P,
+				Note: map[string]string{"error": err.Error()}}); e2 != nil {
+				return e2
+			}
 		}
 	}
 	return sc.Err()
@@ -979,15 +1012,23 @@ func replay(casesPath, resultPath string) error {
 		hashing.Hash, hashing.GetHashFn = realHash, realGet
 		rng := rand.New(rand.NewSource(int64(c.Tag)))
 		spec := makeSpec(c.P, never, never, never, never)
-		g, err := genesis(spec, len(c.Vals), rng)
-		if err != nil {
-			return fmt.Errorf("line %d genesis: %v", line, err)
-		}
-		var st common.BeaconState = g
-		if c.Tag%2 == 1 {
-			if st, err = toFork(spec, g, "altair"); err != nil {
-				return fmt.Errorf("line %d upgrade: %v", line, err)
+		var st common.BeaconState
+		serr := guarded(func() error {
+			g, err := genesis(spec, len(c.Vals), rng)
+			if err != nil {
+				return fmt.Errorf("genesis: %v", err)
 			}
+			st = g
+			if c.Tag%2 == 1 {
+				if st, err = toFork(spec, g, "altair"); err != nil {
+					return fmt.Errorf("upgrade: %v", err)
+				}
+			}
+			return nil
+		})
+		if serr != nil {
+			add("state construction (KickStartState / UpgradeToAltair)", serr.Error(), nil, nil)
+			continue
 		}
 		reg := make([]valSpec, len(c.Vals))
 		for i, v := range c.Vals {
